@@ -74,6 +74,21 @@ func runManifestCase(c sigCase, input []byte) {
 		return
 	}
 	if !relicAccepts(c, path, "") {
+		if c.TS {
+			// informational only: OpenSSL's verdict on the token relic's verifier rejects
+			doc := mustRead(path)
+			if m := reTimestamp.FindSubmatchIndex(doc); m != nil {
+				tok, _ := unb64ws(string(doc[m[2]:m[3]]))
+				var stamped []byte
+				for _, sv := range reSigValue.FindAllSubmatchIndex(doc, -1) {
+					if sv[0] < m[0] {
+						stamped, _ = unb64ws(string(doc[sv[2]:sv[3]]))
+					}
+				}
+				err := opensslTSVerify(tok, stamped)
+				tally("informational: outside verdict on outputs relic's own verifier rejects", fmt.Sprintf("appmanifest key=%s timestamped: openssl ts -verify over the SignatureValue octets accepts=%v", c.Key, err == nil), 1)
+			}
+		}
 		return
 	}
 	run.Distinct(c.String())
@@ -323,6 +338,14 @@ func runPGPCase(c sigCase, t pgpText) {
 		content = in
 	}
 	if !relicAccepts(c, out, content) {
+		// informational only: what GnuPG thinks of an output relic itself rejects
+		var ok bool
+		if merged {
+			ok, _, _ = gpgv(c.Key, false, out)
+		} else {
+			ok, _, _ = gpgv(c.Key, false, out, in)
+		}
+		tally("informational: outside verdict on outputs relic's own verifier rejects", fmt.Sprintf("pgp %s: gpgv accepts=%v", pgpFlagClass(c), ok), 1)
 		return
 	}
 	run.Distinct(c.String())
